@@ -60,6 +60,11 @@ class C18(Check):
                 for d in (-50401, -3601, -3600, -1801, -1, 0, 1, 1799, 1800, 3599, 3600, 43200, 50400):
                     s = edge + d
                     cases.append(("dos_try_from %d %d %d" % (s, max(off, 0), max(-off, 0)), {"k": "try_from", "ts": s + off}))
+        # sub-second parts: dropped, never rounded into the next second / minute (second 59 + 0.5 s must not become 60)
+        for base_ in (calendar.timegm((2018, 11, 17, 10, 38, 59)), calendar.timegm((1980, 1, 1, 0, 0, 59)), calendar.timegm((2107, 12, 31, 23, 59, 59)),
+                      calendar.timegm((2000, 2, 29, 12, 0, 0)), calendar.timegm((2024, 6, 30, 23, 59, 58))):
+            for ns in (0, 1, 499999999, 500000000, 999999999):
+                cases.append(("dos_try_from %d 0 0 %d" % (base_, ns), {"k": "try_from", "ts": base_}))
         # far outside the range: one instant in every year 1..9999 (years congruent to an accepted one modulo 256 or
         # 65536 included), and the extremes the calendar type can hold
         for y in range(1, 10000):
